@@ -8,7 +8,11 @@ every heap effect in it is classified by its receiver:
                  response / exception being produced, parameter dicts built per call; ``self`` inside
                  methods of per-request classes (DispatchState, HTTPException family, RerouteWSGI)
   shared         everything else: ``self`` of Application / BoundRoute / Route / ErrorHandler /
-                 Middleware objects, module globals, parameters of unknown role
+                 Middleware objects, module globals (also under a local that only names one), parameters of
+                 unknown role, the default object of a parameter (whatever the parameter is called), the class
+                 object (``cls`` / ``x.__class__`` / ``type(x)``) whatever the lifetime of the instances; a field
+                 of a per-request class that is initialised in the class body only and updated in place
+                 (``field_freshness``)
 """
 import ast
 
